@@ -41,6 +41,24 @@ pub struct Reference {
     pub has_random: bool,
     pub canon_display: String,
     pub canon_sql: String,
+    /// names of the synthetic probe contents in the quiescent pass (first reference only, and only
+    /// when the workload has a NameBurst)
+    pub probe_names: Vec<String>,
+}
+
+fn probe_name(v: u64) -> String {
+    namer::name_from_content("probe", &format!("verif-probe-content-{}", v))
+}
+
+fn has_name_burst(wl: &Workload) -> bool {
+    fn is(op: &Op) -> bool {
+        match op {
+            Op::NameBurst(_, _, _) => true,
+            Op::Spawn(inner) => is(inner),
+            _ => false,
+        }
+    }
+    wl.threads.iter().any(|t| t.iter().any(is))
 }
 
 fn schema_string(r: &Relation) -> String {
@@ -339,6 +357,28 @@ fn exec_op(ctx: &Arc<Ctx>, who: &str, op: &Op) {
             fault(ctx, "cold_thread");
             let h = shuttle::thread::spawn(move || exec_op(&c2, &name, &inner));
             let _ = h.join();
+        }
+        Op::NameBurst(start, n, stride) => {
+            let table = ctx.refs.first().map(|r| r.probe_names.clone()).unwrap_or_default();
+            let mut h = 0u64;
+            let mut reported = false;
+            for i in 0..*n as u64 {
+                let v = (start + i * stride) % workload::NAME_PROBES;
+                let name = probe_name(v);
+                h = hash64(&format!("{}{}", h, name));
+                if !reported && !table.is_empty() && table[v as usize] != name {
+                    reported = true;
+                    violation(
+                        ctx,
+                        "name_depends_on_history",
+                        "unclassified",
+                        format!("{}: the content-derived name of one and the same content is `{}` here and `{}` in the quiescent pass", who, name, table[v as usize]),
+                        json!({"content": v, "here": name, "quiescent": table[v as usize]}),
+                    );
+                }
+            }
+            fault(ctx, "name_burst");
+            event(ctx, format!("{} name_burst {}+{}x{} h={:016x}", who, start, n, stride, h));
         }
         Op::Abandon(qi, after) => {
             let q = ctx.wl.queries[*qi].clone();
@@ -740,7 +780,11 @@ fn reference_pass(wl: &Workload, alt: bool) -> RefOut {
                 canon_sql: canonicalise(&c.sql),
                 c,
                 relation: r,
+                probe_names: vec![],
             });
+        }
+        if !alt && has_name_burst(&wl2) && !refs.is_empty() {
+            refs[0].probe_names = (0..workload::NAME_PROBES).map(probe_name).collect();
         }
         let ctx = Ctx { wl: wl2.clone(), relations: rel2.clone(), refs: refs.clone(), relations_alt: None, refs_alt: vec![], shared: Arc::new(Mutex::new(Shared::default())) };
         // determinism inside the quiescent pass itself: a second parse of every query
